@@ -583,4 +583,26 @@ theorem utf16Decode_erase (buf : Bytes) : toOpt (utf16Decode buf) = some (Names.
   rw [h]
   rfl
 
+/-! ## the names used by Props/C02 -/
+
+theorem nameDecode_noPanic (apple ms : Nat → String) (mac : UInt8 → Nat) (data : Bytes) :
+    (decode apple ms mac data).noPanic := decode_noPanic apple ms mac data
+
+theorem nameDecode_cost (apple ms : Nat → String) (mac : UInt8 → Nat) (data : Bytes)
+    (r : List Names.Entry) (c : Cost) (h : decode apple ms mac data = .ok (r, c)) :
+    c.steps ≤ 2 + min (data.length / 12) 5460 * (1 + min 65535 data.length) ∧
+    c.alloc ≤ 2 + min (data.length / 12) 5460 * (3 + 2 * min 65535 data.length) :=
+  decode_cost apple ms mac data r c h
+
+theorem nameDecode_witness (apple ms : Nat → String) (mac : UInt8 → Nat) (n L : Nat) (hn : n ≤ 5460)
+    (hL : L < 65536) (hms : ms 0x409 ≠ "") :
+    ∃ r c, decode apple ms mac (advName n L) = .ok (r, c) ∧ n * (1 + L / 2) ≤ c.steps ∧
+      n * (L / 2) ≤ c.alloc ∧ (advName n L).length = 6 + 12 * n + L :=
+  decode_adv apple ms mac n L hn hL hms
+
+theorem nameDecode_erase (apple ms : List (Nat × String)) (mac : UInt8 → Nat)
+    (hmac : ∀ c, mac c = Names.fixRune (Names.macDecodeOne Gen.macDec c.toNat)) (data : Bytes) :
+    toOpt (decode (Names.langGet apple) (Names.langGet ms) mac data)
+      = Names.nameDecodeWith apple ms (nat data) := decode_erase apple ms mac hmac data
+
 end SfntV.Total.NameCff
